@@ -65,7 +65,10 @@ def gen(rng, tier):
             "crlf": rng.random() < 0.2, "gz_members": rng.choice([1, 1, 2]),
             "passes": rng.choice([1, 1, 2]), "end": rng.choice(["exit", "crash", "exit"]), "second_handle": rng.random() < 0.4,
             "abandon": rng.choice([None, None, 0, 1, 2]), "update_after": rng.random() < 0.4,
-            "locked_at": rng.choice([None, None, None, 0, 1, 2, 3, 4, 5, 6])}
+            "locked_at": rng.choice([None, None, None, 0, 1, 2, 3, 4, 5, 6]),
+            "explicit_dialect": rng.random() < 0.2,
+            "open_pragmas": rng.choice([None, None, {"reverse_unordered_selects": "ON"}, {"cache_size": 5, "temp_store": 2},
+                                        {"synchronous": "OFF", "reverse_unordered_selects": "ON"}])}
 
 
 def expected(items):
@@ -140,6 +143,9 @@ def run(case):
         if not V:
             ckw = {"checklines": cl, "merge_strategy": "create_unique", "disable_infer_genes": True, "disable_infer_transcripts": True}
             creq = {"op": "create", "h": "h", "db": "a.db", "data": spec, "kw": ckw}
+            if case.get("explicit_dialect"):
+                creq["explicit_dialect"] = True  # dialect= stated by the caller instead of inferred
+                probes["dialect_given_by_caller"] = 1
             if case.get("locked_at") is not None:
                 # 'database is locked' at one commit of the import: the call may fail (then a forced re-import must
                 # be right) or succeed (then the directives must be exact) - never store a directive twice
@@ -148,7 +154,7 @@ def run(case):
             if not r["ok"] and r.get("injected"):
                 probes["import_failed_on_locked_commit"] = 1
                 call(n, {"op": "gc"})
-                r = call(n, {"op": "create", "h": "h", "db": "a.db", "data": spec, "kw": dict(ckw, force=True)})
+                r = call(n, dict(creq, kw=dict(ckw, force=True), faults=[]))
             elif r["ok"] and r.get("fired"):
                 probes["import_survived_locked_commit"] = 1
             if not r["ok"]:
@@ -179,7 +185,11 @@ def run(case):
                 else:
                     n.close()
                 o = w.node()
-                call(o, {"op": "open", "h": "o", "db": "a.db"})
+                okw = {}
+                if case.get("open_pragmas"):
+                    okw["pragmas"] = case["open_pragmas"]  # the reader's own connection settings must not matter
+                    probes["reopened_with_other_pragmas"] = 1
+                call(o, {"op": "open", "h": "o", "db": "a.db", "kw": okw})
                 views.append(("fresh process", call(o, {"op": "dump", "h": "o", "relations": False}), len(flines)))
                 o.close()
                 for name, v, nexp in views:
